@@ -367,7 +367,7 @@ def output_to_the_controller_buffers_the_frame_with_its_ingress_port(b):
       lambda res: call("buffer")[0] == 1 and call("buffer")[1][0] is pkt and call("buffer")[1][1] == in_port,
     "one_packet_in_names_that_buffer_the_ingress_port_and_the_requested_length":
       lambda res: call("pin")[0] == 1 and pin_arg(0, "in_port") == in_port and pin_arg(1, "buffer_id") == ret
-      and pin_arg(2, "packet") is pkt and pin_arg(99, "reason") == of.OFPR_ACTION and pin_arg(99, "data_length") == max_len,
+      and pin_arg(2, "packet") is pkt and pin_arg(3, "reason") == of.OFPR_ACTION and pin_arg(4, "data_length") == max_len,
   })
 
 
